@@ -59,6 +59,49 @@ fn gen_md(rng: &mut Rng, dups: bool) -> Vec<(String, String)> {
     v
 }
 
+/// a status backend that takes 300 ms per answer and answers concurrently
+#[derive(Clone)]
+struct SlowStatus(Arc<std::sync::atomic::AtomicUsize>, Arc<std::sync::atomic::AtomicUsize>);
+#[tonic::async_trait]
+impl pb::status_server::Status for SlowStatus {
+    async fn get_status(&self, _r: tonic::Request<pb::StatusRequest>) -> Result<tonic::Response<pb::StatusResponse>, tonic::Status> {
+        use std::sync::atomic::Ordering::SeqCst;
+        let now = self.0.fetch_add(1, SeqCst) + 1;
+        self.1.fetch_max(now, SeqCst);
+        tokio::time::sleep(std::time::Duration::from_millis(300)).await;
+        self.0.fetch_sub(1, SeqCst);
+        Ok(tonic::Response::new(pb::StatusResponse { status: Some(pb::StatusData { version: Some(pb::ProtocolVersion { name: "x".into(), protocol: 767 }), players: None, description: None, favicon: None, enforces_secure_chat: None }) }))
+    }
+}
+
+/// C16 through the gRPC status adapter: twenty clients ask for the status at once; a further client's request is answered as fast
+/// as the backend answers one request, not behind the others' (one long-lived adapter instance serves every connection)
+pub fn status_overlap_case() -> Case {
+    use passage_adapters::status::StatusAdapter;
+    let rt = tokio::runtime::Builder::new_multi_thread().worker_threads(4).enable_all().build().unwrap();
+    let (lat, peak) = rt.block_on(async {
+        let listener = tokio::net::TcpListener::bind("127.0.0.1:0").await.unwrap();
+        let port = listener.local_addr().unwrap().port();
+        let svc = SlowStatus(Arc::new(0.into()), Arc::new(0.into()));
+        let peak = svc.1.clone();
+        tokio::spawn(tonic::transport::Server::builder().add_service(pb::status_server::StatusServer::new(svc)).serve_with_incoming(tokio_stream::wrappers::TcpListenerStream::new(listener)));
+        tokio::time::sleep(std::time::Duration::from_millis(50)).await;
+        let adapter = Arc::new(passage_adapters_grpc::GrpcStatusAdapter::new(format!("http://127.0.0.1:{port}")).await.expect("status adapter"));
+        let client: SocketAddr = "192.0.2.7:50000".parse().unwrap();
+        let others: Vec<_> = (0..20).map(|_| { let a = adapter.clone(); tokio::spawn(async move { let _ = a.status(&client, ("h", 1), 767).await; }) }).collect();
+        tokio::time::sleep(std::time::Duration::from_millis(30)).await;
+        let t0 = std::time::Instant::now();
+        let ok = adapter.status(&client, ("h", 1), 767).await.is_ok();
+        let lat = t0.elapsed();
+        for o in others { let _ = o.await; }
+        (if ok { Some(lat) } else { None }, peak.load(std::sync::atomic::Ordering::SeqCst))
+    });
+    let served = lat.is_some_and(|d| d.as_millis() < 1000);
+    Case { request: format!("c16.run proxy=0 limiter=0 gap=0 stalled=post detail=grpc-status-backend-20-waiting latency_us={}", lat.map_or(0, |d| d.as_micros())), observed: if served { "served" } else { "blocked" }.into(),
+        oracle: if served { None } else { Some(format!("with 20 other status requests in flight at a backend that answers each in 300 ms (at most {peak} reached it at once), a further client's status took {:?}", lat)) },
+        class: "grpc-status-backend".into() }
+}
+
 pub fn run(a: &Args) {
     let mut rng = Rng::new(a.seed);
     let rt = tokio::runtime::Builder::new_multi_thread().worker_threads(2).enable_all().build().unwrap();
